@@ -150,6 +150,19 @@ func (x *World) panel(q *ecs.Query, walk []int) map[string]interface{} {
 	return p
 }
 
+// qinfo logs Count and EntityAt of a query that stays open.
+func (x *World) qinfo(q *ecs.Query) map[string]interface{} {
+	cnt := q.Count()
+	at := [][2]int{}
+	func() {
+		defer func() { recover() }()
+		for i := 0; i < cnt && i < 4096; i++ {
+			at = append(at, ent(q.EntityAt(i)))
+		}
+	}()
+	return map[string]interface{}{"count": cnt, "at": at}
+}
+
 func (x *World) addIssued(r *result, e ecs.Entity) {
 	x.issued = append(x.issued, e)
 	r.handles = append(r.handles, ent(e))
@@ -175,18 +188,11 @@ func (x *World) Exec(i int, op Op) map[string]interface{} {
 		if op.Hold {
 			x.queries = append(x.queries, &openQuery{q: q, open: true})
 			r.ret = len(x.queries) - 1
-			if creation {
-				// entities of a held creation query become known when it is iterated
-			}
+			line["qinfo"] = x.qinfo(&x.queries[r.ret].q)
 			return
 		}
 		qq := q
 		panel = x.panel(&qq, op.Walk)
-		if creation {
-			for _, a := range panel["at"].([][2]int) {
-				_ = a
-			}
-		}
 	}
 
 	switch op.Op {
@@ -462,6 +468,7 @@ func (x *World) Exec(i int, op Op) map[string]interface{} {
 			q := w.Query(f)
 			x.queries = append(x.queries, &openQuery{q: q, open: true, filter: op.F})
 			r.ret = len(x.queries) - 1
+			line["qinfo"] = x.qinfo(&x.queries[r.ret].q)
 		})
 	case "QNext", "QStep", "QClose", "QCount":
 		args["qi"] = op.Qi
